@@ -215,7 +215,7 @@ impl TraversalMut for DfsEdge {
             stack,
             last_push,
             size_lb: if root == tree.get_root_idx() {
-                tree.len()
+                tree.len().saturating_sub(1)
             } else {
                 0
             },
